@@ -46,6 +46,15 @@ def run(ctx):
                 if isinstance(a.get(key), dict) and 'dates_as' not in a[key] and rng.random() < 0.5:
                     a[key]['dates_as'] = rng.choice(['datetime64[s]', 'datetime64[m]', 'datetime64[ns]', 'datetime64[ms]', 'DatetimeIndex', 'DatetimeIndex_aware'])
                     a[key]['as_array'] = rng.random() < 0.5
+    # plants and CHP units from the generator: unit commitment parameters, ramp profiles (lists / numpy arrays), time-varying capacity,
+    # a CHP declared without heat node
+    plants = gen.gen_many_plants(ctx.seed, n // 3, dict(CFG, freqs=['h', '2h'], units=['h'], tzs=[None], T=(4, 8), p_profile=0.5, p_unaligned_end=0.0), 'c11p_')
+    for i, sp in enumerate(plants):
+        a = [x for x in sp['assets'] if x['kind'] in ('Plant', 'CHPAsset')][0]
+        if a['kind'] == 'Plant' and i % 2:
+            a['kind'], a['_no_heat'] = 'CHPAsset', True
+        sp['opts']['grid2'] = None
+    specs += plants
     for k, name in enumerate(SPECIAL):
         specs.append({'id': 'c11s_%s' % name, 'seed': 'c11s_%s' % name, 'opts': {'special': name}, 'prices': {}, 'assets': [],
                       'grid': {'start': '2021-01-04 00:00', 'end': '2021-01-04 08:00', 'freq': 'h', 'unit': 'h', 'tz': None, 'T': 8}})
